@@ -354,7 +354,7 @@ func runC15(r *ev.Run, rep *ev.ReplayDoc) ev.Summary {
 		runC15Case(r, c)
 		return sum
 	}
-	maxLen := r.Pick(4, 6)
+	maxLen := r.Pick(5, 8)
 	type root struct {
 		mech, tls, via string
 	}
